@@ -64,7 +64,7 @@ def _same_obj(a: Term, b: Term) -> bool:
         return True
     # a local bound to a constructed circuit keeps its name through field stores
     if a[0] == "new" and b[0] == "new":
-        return a[1] == b[1]
+        return False  # differently constructed objects (e.g. sub-circuits with their own repetition strategy) are different
     if a[0] == "var" and b[0] == "var":
         return a[1] == b[1] and a[2] == b[2]
     return False
